@@ -59,6 +59,27 @@ CHECKS["C11"] = ("model_checking",
     "mutation configs (ctor ignores f_, bad fit keyword, overwrite) must violate.",
     "TLC; the Supports(fam, method, F) table is transcribed from the documented behaviour (lsq only for exponentiated Weibull with F in {{}, {delta}})",
     "DESIGN.md §4 C11")
+CHECKS["C12"] = ("exploration",
+    "TLC explores the fit life cycle state machine (FitLaws.tla) and emits (family, parameter class, n, scale factor, start kind) cases; each is executed (fit, scaled fit, re-fit) and the measured log-likelihoods / parameters are judged by TLC (Trace_C12.tla)",
+    "Likelihood optimality cannot be established by a model: the state machine start -> fit(d) -> fit(c*d) -> re-fit is small (model checked with four mutation configs), the claims "
+    "NoLikelihoodLoss, AtLeastGenerating (MomentsMatch for the norm-fit log-normal), Admissible, ScaleEquivariant (per-family ScaleMap table in the spec) are judged on seeded samples from "
+    "regular parameter classes of nine families; 354 (quick) / 2934 (thorough) life cycles.",
+    "TLC as judge; log-likelihood measured with the object's own pdf; optimiser tolerances (LL 0.05 absolute, parameters 2e-3 relative or equal likelihood level) stated in spec/FitLawsOps.tla; "
+    "known finding: 3-parameter Weibull from the default start",
+    "DESIGN.md §4 C12")
+CHECKS["C13"] = ("model_checking",
+    "TLC model checks the decision table and the exact discrete pipeline (stable sort, plotting positions, zero removal after ranking, co-sorting of weights) for all small vectors; all those vectors are executed on the real estimator and judged by TLC; regression laws judged by TLC against numpy.linalg.lstsq",
+    "The discrete part of the estimator is finite and checked exhaustively for all vectors of length <= 4 over {0..3} with weight vectors over {1,2} both in the model (four mutation configs must "
+    "violate) and on the real code (recording wrapper on _estimate_alpha_beta). NormalEquations, WeightScaleInvariant, KeywordEqualsArray, NoneEqualsOnes, ZeroIgnored, OrderInvariant, "
+    "DeltaLocalMin are exploration-strength laws on seeded samples of six classes incl. zeros, ties and bounded data.",
+    "TLC; numpy.linalg.lstsq on sqrt(w)-scaled rows as independent regression; delta local minimality on a +-1e-3 stencil within fmin's xtol",
+    "DESIGN.md §4 C13")
+CHECKS["C18"] = ("model_checking",
+    "TLC enumerates every single malformation at every position of valid 1-4 dimensional descriptions and every pair (Validation.tla), emits them, each is built and run on the real code as far as its stage, and TLC compares the observed stage/exception with WellFormed/Stage and asserts coverage of the enumerated set",
+    "The quantifier is a finite catalogue of malformations x positions x pairs: 4403 (quick) / 21720 (thorough) cases, all executed; RejectedNotComputed, AcceptedWhenWellFormed, DocumentedClass; "
+    "MC_Validation_mut (no hierarchy check) must violate.",
+    "TLC; the catalogue of malformations is transcribed from the property statement; carrier families rotate in quick",
+    "DESIGN.md §4 C18")
 
 NOT_YET = {}
 
